@@ -198,3 +198,13 @@ PROPS["C18"] = dict(
     require_counters={"any": {"dense_operations": 1000000, "solver_full_rank_systems": 2000, "solver_rank_deficient_systems": 2000}},
     assumptions=["all right-hand sides of the solver are real (non-NULL) symbols, as the property states"],
 )
+
+PROPS["C12"] = dict(
+    jobs=BOTH,
+    rule="one case = 2..6 session scripts (encoders and decoders of RS GF(2^8), RS GF(2^m) m=4/8, LDPC-Staircase with different seeds/N1, 2D parity; both APIs, callbacks, finish) merged by a random / strict round-robin / burst interleaving at API-call granularity in a process with a long history, "
+         "versus each script run alone in a freshly exec'ed process (one fork per script, before any library call); per call the status, completion flag, digest of the output buffer, class (NULL/app/callback/library) and digest of every source-table entry and the set of callback events are compared. "
+         "non-trivial = the script made more than 3 calls; distinct = hash of the merged order",
+    budget_s={"quick": 900, "thorough": 7200},
+    require_counters={"any": {"session_scripts": 1000, "api_calls_compared": 20000}},
+    assumptions=["pointers are classified, never compared numerically; callback events are compared as a set per call (the ML pass injects repair symbols in rand() order)"],
+)
